@@ -377,6 +377,107 @@ Proof.
   eapply idx_inv_same_ids; eauto.
 Qed.
 
+(* ---------------- genesis export / import ---------------- *)
+
+Section FoldUpd.
+  Variable A : Type.
+  Variables (kf : oracle -> Z) (vf : oracle -> A).
+  Definition fold_upd (l : list oracle) (f0 : Z -> option A) : Z -> option A :=
+    fold_left (fun f r => upd f (kf r) (Some (vf r))) l f0.
+
+  Lemma fold_upd_some : forall l f0 k v,
+    (forall r, In r l -> kf r = k -> vf r = v) ->
+    (f0 k = Some v \/ exists r, In r l /\ kf r = k) -> fold_upd l f0 k = Some v.
+  Proof.
+    induction l as [|x t IH]; intros f0 k v HU HD; cbn.
+    - destruct HD as [H|(r & [] & _)]; exact H.
+    - apply IH; [intros r Hr; apply HU; right; exact Hr|].
+      destruct (Z.eq_dec (kf x) k) as [E|N].
+      + left. rewrite <- E, upd_same. f_equal. apply HU; [left; reflexivity | exact E].
+      + destruct HD as [H|(r & [->|Hr] & Hk)].
+        * left. rewrite upd_other; auto.
+        * contradiction.
+        * right. eauto.
+  Qed.
+
+  Lemma fold_upd_inv : forall l f0 k v, fold_upd l f0 k = Some v ->
+    f0 k = Some v \/ exists r, In r l /\ kf r = k /\ vf r = v.
+  Proof.
+    induction l as [|x t IH]; intros f0 k v H; cbn in H; auto.
+    apply IH in H. destruct H as [H|(r & Hr & Hk & Hv)].
+    - destruct (upd_cases _ f0 (kf x) (Some (vf x)) k) as [[E E2]|[N E2]]; rewrite E2 in H.
+      + right. exists x. inversion H. repeat split; auto. left; auto.
+      + left; exact H.
+    - right. exists r. repeat split; auto. right; auto.
+  Qed.
+End FoldUpd.
+
+(* records taken from a consistent registry do not share an address, a bridger or an external address *)
+Lemma all_recs_unique : forall s r1 r2, idx_inv s -> In r1 (all_recs s) -> In r2 (all_recs s) ->
+  o_addr r1 = o_addr r2 \/ o_bridger r1 = o_bridger r2 \/ o_ext r1 = o_ext r2 -> r1 = r2.
+Proof.
+  intros s r1 r2 (I1 & _) H1 H2 E. apply all_recs_In in H1, H2.
+  destruct H1 as (a1 & _ & R1). destruct H2 as (a2 & _ & R2).
+  destruct (I1 _ _ R1) as (A1 & B1 & E1). destruct (I1 _ _ R2) as (A2 & B2 & E2).
+  assert (a1 = a2) by (destruct E as [E|[E|E]]; congruence). subst. congruence.
+Qed.
+
+Lemma exported_sub : forall s r, In r (exported s) -> In r (all_recs s).
+Proof.
+  intros s r H. unfold exported in H. destruct Gen_OracleSlash.export_all_oracles; auto.
+  unfold online_recs in H. apply filter_In in H. tauto.
+Qed.
+
+(* what the import leaves in the registry, whatever subset of the records was exported *)
+Lemma export_import_registry : forall s s', idx_inv s -> export_import s = Ok s' ->
+  keys s' = map o_addr (exported s) /\
+  (forall a r, recs s' a = Some r <-> In r (exported s) /\ o_addr r = a) /\
+  (forall b a, by_bridger s' b = Some a <-> exists r, In r (exported s) /\ o_bridger r = b /\ o_addr r = a) /\
+  (forall e a, by_ext s' e = Some a <-> exists r, In r (exported s) /\ o_ext r = e /\ o_addr r = a).
+Proof.
+  intros s s' I H. unfold export_import in H. inversion H; subst; clear H. unfold_power.
+  assert (U : forall r1 r2, In r1 (exported s) -> In r2 (exported s) ->
+              o_addr r1 = o_addr r2 \/ o_bridger r1 = o_bridger r2 \/ o_ext r1 = o_ext r2 -> r1 = r2).
+  { intros r1 r2 H1 H2. apply (all_recs_unique s); auto using exported_sub. }
+  split; [reflexivity|]. split; [|split].
+  - intros a r. split.
+    + intros H. apply (fold_upd_inv _ o_addr (fun r => r)) in H. destruct H as [H|(r0 & Hr & Hk & Hv)]; [discriminate|].
+      subst. auto.
+    + intros (Hr & Ha). subst a. apply (fold_upd_some _ o_addr (fun r => r)).
+      * intros r0 Hr0 E. apply U; auto.
+      * right. eauto.
+  - intros b a. split.
+    + intros H. apply (fold_upd_inv _ o_bridger o_addr) in H. destruct H as [H|(r0 & Hr & Hk & Hv)]; [discriminate|]. eauto.
+    + intros (r & Hr & Hb & Ha). subst. apply (fold_upd_some _ o_bridger o_addr).
+      * intros r0 Hr0 E. f_equal. apply U; auto.
+      * right. eauto.
+  - intros e a. split.
+    + intros H. apply (fold_upd_inv _ o_ext o_addr) in H. destruct H as [H|(r0 & Hr & Hk & Hv)]; [discriminate|]. eauto.
+    + intros (r & Hr & Hb & Ha). subst. apply (fold_upd_some _ o_ext o_addr).
+      * intros r0 Hr0 E. f_equal. apply U; auto.
+      * right. eauto.
+Qed.
+
+Lemma export_import_idx : forall s s', idx_inv s -> export_import s = Ok s' -> idx_inv s'.
+Proof.
+  intros s s' I H. destruct (export_import_registry _ _ I H) as (_ & R & B & E).
+  repeat split.
+  - apply R in H0. tauto.
+  - apply R in H0. destruct H0 as (Hr & Ha). apply B. eauto.
+  - apply R in H0. destruct H0 as (Hr & Ha). apply E. eauto.
+  - intros b a Hb. apply B in Hb. destruct Hb as (r & Hr & Hb & Ha). exists r. split; auto. apply R. auto.
+  - intros e a He. apply E in He. destruct He as (r & Hr & He & Ha). exists r. split; auto. apply R. auto.
+Qed.
+
+(* an imported record is the stored record of its address *)
+Lemma export_import_recs_sub : forall s s' a r, idx_inv s -> export_import s = Ok s' ->
+  recs s' a = Some r -> recs s a = Some r.
+Proof.
+  intros s s' a r I H Hr. destruct (export_import_registry _ _ I H) as (_ & R & _).
+  apply R in Hr. destruct Hr as (Hr & Ha). apply exported_sub, all_recs_In in Hr.
+  destruct Hr as (a' & _ & Hr). destruct I as (I1 & _). destruct (I1 _ _ Hr) as (A & _). congruence.
+Qed.
+
 Theorem step_idx : forall s o s', idx_inv s -> step s o = Ok s' -> idx_inv s'.
 Proof.
   intros s o s' I H. destruct o; cbn [step] in H.
@@ -396,6 +497,8 @@ Proof.
   - unfold fund in H. inversion H; subst. exact I.
   - unfold slash_val in H. destruct (negb (has_val s v)); inversion H; subst; exact I.
   - unfold env_val in H. inversion H; subst. exact I.
+  - unfold exec_batch in H. guards H. inversion H; subst. exact I.
+  - eapply export_import_idx; eauto.
   - eapply end_block_idx; eauto.
 Qed.
 
